@@ -425,10 +425,13 @@ class BasinProxyFeature(np.lib.mixins.NDArrayOperatorsMixin):
         return np.array(self._cache, copy=copy)
 
     def __getattr__(self, item):
-        if item in [
+        if item == "shape":
+            # the first axis enumerates the mapped events
+            return (len(self.basinmap),) + tuple(self.feat_obj.shape[1:])
+        elif item == "size":
+            return int(np.prod(self.shape))
+        elif item in [
             "dtype",
-            "shape",
-            "size",
         ]:
             return getattr(self.feat_obj, item)
         else:
